@@ -924,6 +924,13 @@ func (s *Service) runPipeline(ctx context.Context, rp *runnablePipeline) error {
 	// nodesWg is done once all nodes stop running
 	var nodesWg sync.WaitGroup
 	var isGracefulShutdown atomic.Bool
+	// fatalNodeErr is the first fatal error a node of this run stopped with that
+	// is not a mere consequence of the run's context being cancelled. The tomb
+	// only keeps the FIRST error: when a node fails fatally, a sibling that
+	// fails in its wake (e.g. the other fan-out branch: "message was nacked by
+	// another node") can report first, and the run would then be classified by
+	// that collateral, transient-looking error.
+	var fatalNodeErr atomic.Pointer[error]
 	for _, node := range rp.n {
 		nodesWg.Add(1)
 
@@ -954,7 +961,11 @@ func (s *Service) runPipeline(ctx context.Context, rp *runnablePipeline) error {
 				return nil
 			}
 			if err != nil {
-				return cerrors.Errorf("node %s stopped with error: %w", node.ID(), err)
+				err = cerrors.Errorf("node %s stopped with error: %w", node.ID(), err)
+				if cerrors.IsFatalError(err) && !cerrors.Is(err, context.Canceled) {
+					fatalNodeErr.CompareAndSwap(nil, &err)
+				}
+				return err
 			}
 			return nil
 		})
@@ -1051,6 +1062,11 @@ func (s *Service) runPipeline(ctx context.Context, rp *runnablePipeline) error {
 				return err
 			}
 		default:
+			if fatal := fatalNodeErr.Load(); fatal != nil && !cerrors.IsFatalError(err) {
+				// A node failed for a fatal reason but a sibling's collateral
+				// error reached the tomb first: the fatal one is the cause.
+				err = *fatal
+			}
 			if rp.forceStopped.Load() && !cerrors.IsFatalError(err) {
 				// The run was force stopped while it was already failing with a
 				// transient error: tomb kept that first error, so the fatal
